@@ -8,7 +8,7 @@ CRATES = facts.CRATES
 
 
 # --------------------------------------------------------------------------- names
-def norm(path):
+def norm(path, precise=False):
     """Strip generic arguments from a printed def path, keeping `<T as Trait>` and
     `<impl ...>` qualifiers (recursively normalised)."""
     if path is None:
@@ -36,7 +36,7 @@ def norm(path):
                     out.append('<impl ' + _norm_impl_inner(inner[5:]) + '>')
                 else:
                     a, b = _split_as(inner)
-                    out.append('<' + norm(a) + ' as ' + norm(b) + '>')
+                    out.append('<' + _strip_lt(norm(a)) + ' as ' + (_norm_trait(b) if precise else norm(b)) + '>')
             elif at_seg_start and i == 0 and not _top_level_as(inner):
                 # `<Type>::method` form
                 out.append('<' + norm(inner) + '>')
@@ -49,6 +49,51 @@ def norm(path):
         out.append(c)
         i += 1
     return ''.join(out)
+
+
+def normx(path):
+    """precise id: like norm() but keeps the concrete generic arguments of the trait in `<T as Trait<..>>` so that several impls of one
+    trait for one type stay distinct (used for per-impl tables); norm() is the loose id used for matching in rules"""
+    return norm(path, precise=True) if path is not None else None
+
+
+def _strip_lt(s):
+    return re.sub(r"&'\w+ ", '&', s)
+
+
+def _split_args(s):
+    out, depth, cur = [], 0, ''
+    for j, ch in enumerate(s):
+        if ch in '<([':
+            depth += 1
+        elif ch in ')]' or (ch == '>' and s[j - 1:j] != '-'):
+            depth -= 1
+        if ch == ',' and depth == 0:
+            out.append(cur.strip()); cur = ''
+        else:
+            cur += ch
+    if cur.strip():
+        out.append(cur.strip())
+    return out
+
+
+def _norm_trait(b):
+    """`Trait<Args>`: keep the *concrete* generic arguments (full paths, primitives, tuples, refs, slices), drop type parameters and
+    lifetimes — impls of one trait for one type that differ only in these arguments must keep distinct ids"""
+    i = b.find('<')
+    if i < 0 or not b.endswith('>'):
+        return norm(b)
+    head, args = b[:i], _split_args(b[i + 1:-1])
+    keep = []
+    for a in args:
+        a = a.strip()
+        if a.startswith("'"):
+            continue
+        if '=' in a and not a.startswith(('(', '[', '&', '<')):     # associated type binding `Item = ..`
+            continue
+        if '::' in a or a[:1].islower() or a[:1] in '([&*':
+            keep.append(_strip_lt(norm(a)))
+    return norm(head) + ('<' + ', '.join(keep) + '>' if keep else '')
 
 
 def _top_level_as(s):
@@ -361,13 +406,28 @@ class World:
     def fn_index(self):
         if self._fn_index is None:
             idx = defaultdict(list)
+            self._fnx = {}
             for c in self.crates():
                 for f in self.hir(c)['fns']:
                     f['_crate'] = c
                     f['_nid'] = norm(f['id'])
+                    f['_xid'] = normx(f['id'])
                     idx[f['_nid']].append(f)
+                    self._fnx.setdefault(f['_xid'], f)
             self._fn_index = idx
         return self._fn_index
+
+    def fn_x(self, xid, required=True):
+        """function by precise id (falls back to the loose id when that is unambiguous)"""
+        self.fn_index()
+        f = self._fnx.get(xid)
+        if f is None:
+            l = self._fn_index.get(xid, [])
+            if len(l) == 1:
+                f = l[0]
+        if f is None and required:
+            raise AnchorMissing(f'function not found (or ambiguous): {xid}')
+        return f
 
     def all_fns(self, crates=None):
         for c in (crates or self.crates()):
@@ -414,13 +474,34 @@ class World:
     def mir_index(self):
         if self._mir_index is None:
             idx = {}
+            self._mir_all = defaultdict(list)
+            self._mirx = {}
             for c in self.crates():
                 for b in self.mir(c)['bodies']:
                     b['_crate'] = c
                     b['_nid'] = norm(b['id'])
+                    b['_xid'] = normx(b['id'])
                     idx.setdefault(b['_nid'], b)
+                    self._mir_all[b['_nid']].append(b)
+                    self._mirx.setdefault(b['_xid'], b)
             self._mir_index = idx
         return self._mir_index
+
+    def mir_bodies(self, nid):
+        """all bodies sharing a loose id (several impls of one trait for one type)"""
+        self.mir_index()
+        return self._mir_all.get(nid, [])
+
+    def mir_body_x(self, xid, required=True):
+        self.mir_index()
+        b = self._mirx.get(xid)
+        if b is None:
+            l = self._mir_all.get(xid, [])
+            if len(l) == 1:
+                b = l[0]
+        if b is None and required:
+            raise AnchorMissing(f'MIR body not found (or ambiguous): {xid}')
+        return b
 
     def mir_body(self, nid, required=True):
         b = self.mir_index().get(nid)
@@ -462,7 +543,8 @@ class CallGraph:
         self.sites = defaultdict(list)     # caller nid -> [(bb, term, callee nid, resolved:bool)]
         midx = w.mir_index()
         impl_idx = w.impl_index()
-        for nid, b in midx.items():
+        allb = [(nid, b) for nid in midx for b in w.mir_bodies(nid)]
+        for nid, b in allb:
             for bi, blk in enumerate(b['blocks']):
                 for s in blk['s']:
                     if s.get('k') == 'Agg:Closure' and 'agg' in s:
